@@ -51,3 +51,40 @@ class C05(ScanProperty):
 
 
 ALL = {c.ID: c for c in [C05]}
+
+
+from driver import CertProperty
+
+
+class C02(CertProperty):
+    ID = 'C02'
+    WHAT = 'c02'
+    THEOREMS = [('Properties.C02', ['C02_checker_sound', 'C02_minterm_lifting_automaton', 'C02_minterm_lifting_patterns',
+                                    'C02_all_strings', 'C02_empty_never_accepted', 'C02_classes_registered'])]
+    COQ_TARGETS = ['Properties/C02.vo']
+    LEVEL = 'proof'
+    ASSUMPTIONS = ['the minterm table equals the class/leaf predicates on every scalar value (established by the exhaustive '
+                   'sweep in the harness, not in Coq)',
+                   'a pattern leaf denotes the set its one-pattern scanner matches (C08 observation)']
+    TRUSTED_EXTRA = ['the exhaustive 1,112,064-scalar sweep producing the minterm partition (Rust harness)']
+    RULE = ('programs = repository corpora (tests/data, README; veryl in the thorough tier), enumerated small patterns over two '
+            'overlapping classes, random modes (dense 3-letter grammar and full grammar, with lookaheads); for every mode and '
+            'every lookahead automaton one theorem "for all non-empty words over the minterm alphabet: accepted token types = '
+            'token types with a matching pattern" is generated and Qed-checked by coqc; non-trivial = distinct program with a '
+            'repetition, alternation or class')
+
+
+class C03(CertProperty):
+    ID = 'C03'
+    WHAT = 'c03'
+    THEOREMS = [('Properties.C03', ['C03_pair_checker_sound', 'C03_all_strings'])]
+    COQ_TARGETS = ['Properties/C03.vo']
+    LEVEL = 'proof'
+    ASSUMPTIONS = C02.ASSUMPTIONS[:1]
+    TRUSTED_EXTRA = C02.TRUSTED_EXTRA
+    RULE = ('every (input, output) pair of Minimizer::minimize recorded while building the C02 program set (modes and lookaheads): '
+            'one theorem "for all words: same accepted token types" plus the size and start-state checks per pair, Qed-checked; '
+            'non-trivial as for C02')
+
+
+ALL.update({c.ID: c for c in [C02, C03]})
